@@ -165,6 +165,20 @@ CLAIMED["C02"] = dict(
     technique="Lean 4 proofs parametric in the arithmetic + bit-exact differential correspondence at file and read-back level",
     design="7 C02")
 
+CLAIMED["C03"] = dict(
+    text="Model of metadata.py: _save_item (the guard chain in its order) and _read_item (the tag dispatch). Kernel-checked by mutual "
+         "structural induction over values and item lists, so dict nesting depth is unbounded: C03_item / C03_items — for EVERY "
+         "value of the documented kinds the writer succeeds and the reader returns its canonical form (numeric sequences as the "
+         "entries of the array numpy stored, numpy scalars as their Python value, everything else verbatim: bool stays bool, int "
+         "int, float float incl. nan/inf by bit pattern, complex, str, None, arrays by dtype/shape/bytes token, tuples tuples, "
+         "lists lists); C03_metadata — a whole Metadata group incl. its tags and class; C03_tags — writer tags = reader branches "
+         "(tables regenerated from the source); C03_counterexample_None_string shows why '_None' is outside the domain.",
+    note="What numpy/h5py make of a Python sequence handed to create_dataset (contract H6) is supplied per value by the "
+         "abstraction function (the token of what was actually stored, or 'refused'); the model decides emdfile's part only. "
+         "Any number of Metadata per node / any node position: composition with C01 and C09_root_md (bundle = name-keyed map).",
+    technique="Lean 4 mutual structural induction over a value grammar + regenerated tag tables + differential correspondence at file and read-back level",
+    design="7 C03")
+
 NOT_YET = {}
 
 def main():
